@@ -115,7 +115,16 @@ func (d *Do) appendParameterBeforeTypeCalculate(
 			return blockParamaters
 		}
 
-		tmpParameters := [20]*base.T{}
+		var tmpParameters []*base.T
+
+		// grow the positional buffer on demand (it used to be a fixed [20]*base.T)
+		slot := func(idx int) **base.T {
+			for len(tmpParameters) <= idx {
+				tmpParameters = append(tmpParameters, nil)
+			}
+
+			return &tmpParameters[idx]
+		}
 
 		if len(lastEvaluatedT.UnifyVariants().GetVariants()) == 0 {
 			blockParamaters =
@@ -136,36 +145,36 @@ func (d *Do) appendParameterBeforeTypeCalculate(
 				arrayVariants := variant.GetVariants()
 
 				for idx, arrayVariant := range arrayVariants {
-					if tmpParameters[idx] == nil {
+					if *slot(idx) == nil {
 						arrayT := base.MakeAnyArray()
-						tmpParameters[idx] = arrayT
+						*slot(idx) = arrayT
 					}
 
-					tmpParameters[idx].AppendArrayVariant(arrayVariant)
+					(*slot(idx)).AppendArrayVariant(arrayVariant)
 				}
 
 			case base.KEYVALUE:
 				hashT := base.MakeAnyHash()
 				hashT.AppendHashVariant(variant)
-				tmpParameters[idx] = hashT
+				*slot(idx) = hashT
 				continue
 
 			case base.OBJECT:
-				if tmpParameters[idx] == nil {
+				if *slot(idx) == nil {
 					arrayT := base.MakeAnyArray()
-					tmpParameters[idx] = arrayT
+					*slot(idx) = arrayT
 				}
 
-				tmpParameters[idx].AppendArrayVariant(variant)
+				(*slot(idx)).AppendArrayVariant(variant)
 
 			default:
-				if tmpParameters[0] == nil {
+				if *slot(0) == nil {
 					unionT := base.MakeUnion([]base.T{variant})
-					tmpParameters[0] = unionT
+					*slot(0) = unionT
 					continue
 				}
 
-				tmpParameters[0].AppendVariant(variant)
+				(*slot(0)).AppendVariant(variant)
 			}
 		}
 
